@@ -464,5 +464,98 @@ func c13Confirm(c *Cfg, o *c13Oracle, cases []*c13Case) {
 			}
 		}
 	}
+	decide(false)
+	// third round: three root causes at once (triples of the applicable transformations, jointly;
+	// inlining of recursive references last)
+	probes = nil
+	for _, p := range pend {
+		if !p.unexplained() || len(p.applied) < 4 { // with 3 applicable, "combined" was the triple
+			continue
+		}
+		n := 0
+		for i := 0; i < len(p.applied) && n < 40; i++ {
+			for j := i + 1; j < len(p.applied) && n < 40; j++ {
+				for k := j + 1; k < len(p.applied) && n < 40; k++ {
+					tr := []c13Xform{p.applied[i], p.applied[j], p.applied[k]}
+					needs := "triple"
+					for _, x := range tr {
+						if x.needs == "contains-standalone-differs" {
+							needs = "contains-standalone-differs"
+						}
+					}
+					n += p.mk(tr[0].class, needs, func(s, i jv) (jv, jv) {
+						for _, x := range tr {
+							if x.needs != "recursive-ref" {
+								s, i = x.fn(s, i)
+							}
+						}
+						for _, x := range tr {
+							if x.needs == "recursive-ref" {
+								s, i = x.fn(s, i)
+							}
+						}
+						return s, i
+					})
+				}
+			}
+		}
+	}
+	if len(probes) > 0 {
+		decide(false)
+	}
+	// robustness against load: every probe of a still unexplained case that did not complete
+	// (CPU limit reached, worker lost) is evaluated once more ALONE with a generous limit
+	probes = nil
+	var retry []*c13Case
+	for _, p := range pend {
+		if !p.unexplained() {
+			continue
+		}
+		n := 0
+		for _, a := range p.attempts { // in order: single transformations, all together, pairs, triples
+			if n < 6 && !probeUsable(a.probe) && a.probe.importErr != "" && !strings.HasPrefix(a.probe.importErr, "import:") {
+				retry = append(retry, a.probe)
+				n++
+			}
+		}
+	}
+	if len(retry) > 0 {
+		c.Count(fmt.Sprintf("confirmation-retried-alone:%d", len(retry)))
+		c13RetryAlone(c, retry)
+	}
 	decide(true)
+	// a divergence whose confirmation could not be COMPLETED even alone (some probe still without
+	// a verdict) is inconclusive: counted, not reported (like every evaluation blow-up); it stays a
+	// failing input only if every probe completed and none made the importer agree with the oracle
+	for _, p := range pend {
+		if !p.unexplained() {
+			continue
+		}
+		incomplete := false
+		for _, a := range p.attempts {
+			if !probeUsable(a.probe) && a.probe.importErr != "" && !strings.HasPrefix(a.probe.importErr, "import:") {
+				incomplete = true
+			}
+		}
+		if incomplete {
+			if p.cs.inconclusive == nil {
+				p.cs.inconclusive = make([]bool, len(p.cs.instTxt))
+			}
+			for _, k := range p.fail {
+				if p.cs.class[k] == "" {
+					p.cs.inconclusive[k] = true
+					c.Count("confirmation-inconclusive")
+				}
+			}
+		}
+	}
+}
+
+func (p *c13Pending) unexplained() bool {
+	for _, k := range p.fail {
+		if p.cs.class[k] == "" {
+			return true
+		}
+	}
+	return false
 }
